@@ -526,7 +526,7 @@ func isConstantExpression(exp ast.Expression) bool {
 }
 
 func isLiteralExpression(exp ast.Expression) bool {
-	switch exp.(type) {
+	switch t := exp.(type) {
 	case *ast.Float:
 		return true
 	case *ast.Integer:
@@ -535,6 +535,11 @@ func isLiteralExpression(exp ast.Expression) bool {
 		return true
 	case *ast.RTime:
 		return true
+	case *ast.PrefixExpression:
+		// A negative number is still a literal, e.g. -1.5
+		if t.Operator == "-" {
+			return isLiteralExpression(t.Right)
+		}
 	}
 	return false
 }
